@@ -12,8 +12,7 @@ RULE = (
     "histories over 2-3 target schemas S, 1-2 source schemas T (0-3 rules each, with casts and docs), 2-3 root paths R "
     "(concrete and non-concrete, length 0-2, document-guided) and 2 documents: a program of 2-10 steps add(S_i, T_j, R_k) "
     "in any order - the same T under different roots into the same S and into different S - and validate(S_i, doc) in "
-    "between. The model keeps every S's expected rule list (previous rules, then T's rules re-rooted with the library's "
-    "own '/' on FRESH objects, stable-sorted by path length). After EVERY step: S.rules == expected element-wise (both "
+    "between. The model keeps every S's expected rule list (previous rules, then T's rules re-rooted on FRESH objects - root part objects followed by the rule path's part objects - stable-sorted by path length). After EVERY step: S.rules == expected element-wise (both "
     "directions); S.validate(doc) equals the reference over the expected rule terms (verdict, failing paths per rule, cast "
     "data); every T's fingerprint is unchanged, T.rules == a freshly built T, T validates as before; for a concrete root "
     "whose node is a non-empty container, T.validate(node) failures re-rooted at R equal the added rules' failures. "
@@ -99,7 +98,10 @@ def body(case):
                         exp_objs.append(build.build_rule(term))
                     else:
                         ri2, t = extra
-                        exp_objs.append(ns.r.Rule(path=build.build_path(roots[ri2]) / build.build_path(t.path),
+                        # the re-rooted path: the root's part objects followed by the rule path's part
+                        # objects (a path built from part objects is non-concrete, like the result of
+                        # the library's '/'; the expectation deliberately does not call '/')
+                        exp_objs.append(ns.r.Rule(path=ns.d.DataPath(*build.build_path(roots[ri2]).parts, *build.build_path(t.path).parts),
                                                   condition=build.build_cond(t.cond), cast=build.build_cast(t.cast)))
                 got = list(S[si].rules)
                 if len(got) != len(exp_objs):
